@@ -7,7 +7,7 @@ from pyvc.spec import implies, be, unbe, zeros, raw, slot, lib_error, is_instanc
 import bromelia.base as B
 from bromelia.exceptions import AVPAttributeValueError
 from contracts.common import (enc_avp, enc_of, avp_len, avp_plen, data_of, view_code, view_vendor,
-                              generic_avp_shape, dict_avp_shape, any_avp_shape, ANY_VALUE, MAX24)
+                              generic_avp_shape, dict_avp_shape, any_avp_shape, ANY_VALUE, MAX24, stale_padding)
 
 
 def small_enough(self):
@@ -17,7 +17,7 @@ def small_enough(self):
 @contract("bromelia.base.DiameterAVP.length.fget", prop="C01", name="_")
 class _Length:
     """AVP Length = header (8, or 12 with Vendor-ID) + data length, never the padding"""
-    args = {"self": any_avp_shape()}
+    args = {"self": any_avp_shape(padding=stale_padding())}
     at_calls = True
     returns = T.Bytes(3)
     requires = small_enough
@@ -56,7 +56,7 @@ def _padding_length_effect(ctx, ns):
 @contract("bromelia.base.DiameterAVP.padding.fget", prop="C01", name="_")
 class _Padding:
     """zero bytes up to the next 4-byte boundary; None when already aligned"""
-    args = {"self": any_avp_shape()}
+    args = {"self": any_avp_shape(padding=stale_padding())}
     at_calls = True
     effect = _padding_effect
     check_effect = True
@@ -73,7 +73,7 @@ class _Padding:
 @contract("bromelia.base.DiameterAVP.dump", prop="C01", name="_")
 class _Dump:
     """dump() is exactly the RFC 6733 encoding of (code, flags, vendor?, data)"""
-    args = {"self": any_avp_shape()}
+    args = {"self": any_avp_shape(padding=stale_padding())}
     at_calls = True
     returns = T.Bytes()
     requires = small_enough
@@ -92,9 +92,9 @@ class _Dump:
         return len(result) == 12 + len(data_of(self)) + (4 - len(data_of(self)) % 4) % 4
 
 
-@contract("bromelia.base.DiameterAVP.get_length", prop="C01", name="_")
+@contract("bromelia.base.DiameterAVP.get_length", prop="C01", name="_", also=("C12",))
 class _GetLength:
-    args = {"self": any_avp_shape()}
+    args = {"self": any_avp_shape(padding=stale_padding())}
     at_calls = True
     returns = T.Int()
     requires = small_enough
@@ -103,9 +103,9 @@ class _GetLength:
         return result == avp_len(view_vendor(self), data_of(self))
 
 
-@contract("bromelia.base.DiameterAVP.get_padding_length", prop="C01", name="_")
+@contract("bromelia.base.DiameterAVP.get_padding_length", prop="C01", name="_", also=("C12",))
 class _GetPaddingLength:
-    args = {"self": any_avp_shape()}
+    args = {"self": any_avp_shape(padding=stale_padding())}
     at_calls = True
     effect = _padding_length_effect
     check_effect = True
